@@ -604,7 +604,8 @@ SELECTORS = {
     "point_label": sel_point_labels, "axis_title": sel_axis_titles, "ticklabels": sel_ticklabels,
     "picture": lambda s: sel_kind(s, "PICTURE"), "connector": lambda s: [sh for sh in all_shapes(s) if hasattr(sh, "begin_connect")],
     "autoshape": lambda s: [sh for sh in all_shapes(s) if hasattr(sh, "adjustments")],
-    "slide": lambda s: [s], "background": lambda s: [s.background], "shadow": lambda s: [sh.shadow for sh in all_shapes(s) if hasattr(sh, "shadow")],
+    "slide": lambda s: [s], "background": lambda s: [s.background],
+    "shadow": lambda s: [x for x in (_safe(lambda sh=sh: sh.shadow) for sh in all_shapes(s)) if x is not None],
     "container": sel_containers, "placeholder": sel_placeholders,
     "row": lambda s: [r for t in sel_tables(s) for r in list(t.rows)[:3]],
     "column": lambda s: [c for t in sel_tables(s) for c in list(t.columns)[:3]],
@@ -955,6 +956,19 @@ def exec_op(prs, op):
     return "ok"
 
 
+def _robust(f):
+    def g(slide):
+        try:
+            return f(slide)
+        except Exception:  # noqa
+            return []
+    return g
+
+
+SELECTORS = {k: _robust(v) for k, v in SELECTORS.items()}
+sel_containers_raw = sel_containers
+
+
 def gen_op_live(rng, prs):
     """generate an operation that has a target in the current state (most of the time)"""
     n = len(prs.slides)
@@ -1007,7 +1021,7 @@ class Tracer:
                 fr = sys._getframe(1)
                 fn = fr.f_code.co_filename
                 if fn.startswith(src) and not fn.endswith("oxml/xmlchemy.py"):
-                    key = "%s|%s|%s" % (fn[len(src):], getattr(fr.f_code, "co_qualname", fr.f_code.co_name), name)
+                    key = "%s|%s|%s" % (fn[len(src):], getattr(fr.f_code, "co_qualname", fr.f_code.co_name).replace(".<locals>", ""), name)
                     sites[key] = sites.get(key, 0) + 1
                 return orig(self_, *a, **kw)
             f.__name__ = name
@@ -1215,7 +1229,8 @@ def _worker(job):
         if (not lx) != cv:
             dis.append({"hash": h, "lx": [list(x) for x in lx], "coq_valid": cv, "coq": [list(x) for x in ccl],
                         "explained": explained(lx, cv)})
-    nsnap = len(snap.cq)
+    nsnap = len(_W["reported"]) - _W.get("counted", 0)
+    _W["counted"] = _W.get("counted", 0) + nsnap
     base_bad = {n: [list(x) for x in snap.lx.get(h) or []] for n, h in r["base"].items() if snap.lx.get(h)}
     return {"idx": idx, "deck": deck, "ops": r["ops"], "outcomes": r["outcomes"], "found": found, "save_new": save_new,
             "mutated": r["mutated_after_exception"], "disagreements": dis, "nsnap": nsnap, "base_bad": base_bad,
@@ -1277,6 +1292,17 @@ def diag_rows():
     return res, out
 
 
+def ensure_runner(ck):
+    """the validator runner does not depend on the instance proofs: keep it current even when an
+    obligation fails (coq_build only rebuilds it after a successful build)"""
+    ml = os.path.join(COQ, "extract", "c03.ml")
+    exe = os.path.join(COQ, "extract", "run_c03")
+    if os.path.exists(ml) and ((not os.path.exists(exe)) or os.path.getmtime(exe) < os.path.getmtime(ml)):
+        rc, o = _run(["./extract/build.sh", "c03"], cwd=COQ)
+        if rc != 0:
+            ck.notes.append("runner build failed: " + o[-300:])
+
+
 def jobs_for(tier, seed):
     decks = corpus_decks()
     default = decks[0]
@@ -1306,6 +1332,7 @@ def run(ck, tier, rng):
     ck.notes.append(out.strip().split("\n")[-1])
     # 2. prove
     ck.build = coq_build("C03", extra_targets=["gen/GenC03.vo"])
+    ensure_runner(ck)
     init_tables()
     V = Validators()
     meta = V.meta
@@ -1384,7 +1411,6 @@ def run(ck, tier, rng):
             ck.violation("harness-sequence-crash", "sequence %d on %s crashed the harness: %s" % (r["idx"], r["deck"], r["crash"][-300:]),
                          {"theorem_or_correspondence": "observed part (harness)", "traceback": r["crash"]}, concrete=False)
             continue
-        nsnap = max(nsnap, 0) + 0
         for op, outc in zip(r["ops"], r["outcomes"]):
             klass = op_name(op) + (":rejected" if outc.startswith("exc") else ":skipped" if outc == "skip" else "")
             ck.count((r["deck"], json.dumps(op, sort_keys=True, default=str)), outc != "skip", klass)
@@ -1453,8 +1479,7 @@ def run(ck, tier, rng):
         extra={"sequences": nseq, "decks": len(corpus_decks()), "templates_checked": len(meta["templates"]),
                "template_elements": sum(t["size"] for t in meta["templates"]),
                "schema_types": meta["n_types"], "lexical_limits": meta["lex_limits"], "xsd_not_compiled_by_libxml2": V.not_compiled,
-               "correspondence_parts_compared": sum(r.get("nsnap", 0) for r in results if r.get("idx", 0) % 1 == 0 and "nsnap" in r) and max(
-                   r.get("nsnap", 0) for r in results if "nsnap" in r),
+               "correspondence_parts_compared": sum(r.get("nsnap", 0) for r in results),
                "correspondence_diffs": len(dis_bad), "correspondence_explained_by_model_limits": dis_expl,
                "preexisting_invalid_parts": {d: v for d, v in sorted(base_bad.items())},
                "mutated_after_exception": mutated,
